@@ -906,3 +906,59 @@ TARGETS.append(
                    ('result__(_s, _n)', {'_s': 'bool', '_n': 'Z'}, '({_s}, {_n})', 'scanres')],
          stmt_patterns=[('spliced_in_ref.append(tx_id)', {}, 'spliced__', 'true'),
                         ('retained_in_ref.append(tx_id)', {}, 'retained__', '({cur} + 1)')]))
+
+# ---------------------------------------------------------------------------------------------- C06 record order / identity
+# (23) SeqFeature.py FeatureLocation.__eq__ / __gt__ and seqvar/VariantRecord.py VariantRecord.__eq__ / __gt__ / __ge__ /
+#      __lt__ / __le__ / __hash__                                                          vs Model/VarRecord.v
+#      Trusted: a str is a code-point list, `==` on str is eq_seq and `>` on str is VarRecord.str_gtb (lexicographic by code
+#      point); the strand is one of None / 0 / -1 / 1 (Biopython's setter rejects anything else), so _STRAND_LEVELS[..]
+#      (text pinned below) is VarRecord.strand_level and cannot raise KeyError; start / end are ints; `self.attrs.get(K)`
+#      for the eleven keys below is slot k of the model's option list (None = key absent); hash(tuple) is a function of
+#      the tuple (the generated function returns the tuple as a tagged list); `self == other`, `self > other`,
+#      `self >= other` on records are the methods translated just above (same Gen file), `==` / `>` on locations are
+#      the translated FeatureLocation methods.
+HASH_ATTRS = ['DONOR_TRANSCRIPT_ID', 'START', 'END', 'DONOR_START', 'DONOR_END', 'LEFT_INSERT_START', 'LEFT_INSERT_END',
+              'RIGHT_INSERT_START', 'RIGHT_INSERT_END', 'ACCEPTER_TRANSCRIPT_ID', 'ACCEPTER_POSITION']
+VR_TYPES = {'str': 'seq', 'optstr': 'option seq', 'hkey': 'list hval'}
+LOCPATS = [
+    ('self.start', {}, '(l_start a)', 'Z'), ('self.end', {}, '(l_end a)', 'Z'), ('self.strand', {}, '(l_strand a)', 'strand'),
+    ('_l.start', {'_l': 'loc'}, '(l_start {_l})', 'Z'), ('_l.end', {'_l': 'loc'}, '(l_end {_l})', 'Z'),
+    ('_l.strand', {'_l': 'loc'}, '(l_strand {_l})', 'strand'),
+    ('_a == _b', {'_a': 'strand', '_b': 'strand'}, '(strand_eqb {_a} {_b})', 'bool'),
+    ('_STRAND_LEVELS[_s]', {'_STRAND_LEVELS': 'literal', '_s': 'strand'}, '(strand_level {_s})', 'Z'),
+]
+FLOC = dict(out='Py_VariantRecord', file='moPepGen/SeqFeature.py', cls='FeatureLocation', imports=['Model.VarRecord'],
+            types=VR_TYPES, module_consts={'_STRAND_LEVELS': '{None: 0, 0: 1, -1: 2, 1: 3}'},
+            args=[('a', 'loc'), ('b', 'loc')], params={'other': ('b', 'loc')},
+            ret_ty='bool', res_ty='bool', ok='{}', errors={}, raises=[], patterns=LOCPATS)
+VRPATS = [
+    ('self.location', {}, '(v_loc a)', 'loc'), ('self.ref', {}, '(v_ref a)', 'str'), ('self.alt', {}, '(v_alt a)', 'str'),
+    ('self.type', {}, '(v_type a)', 'str'),
+    ('_r.location', {'_r': 'vrec'}, '(v_loc {_r})', 'loc'), ('_r.ref', {'_r': 'vrec'}, '(v_ref {_r})', 'str'),
+    ('_r.alt', {'_r': 'vrec'}, '(v_alt {_r})', 'str'), ('_r.type', {'_r': 'vrec'}, '(v_type {_r})', 'str'),
+    ('_l.start', {'_l': 'loc'}, '(l_start {_l})', 'Z'), ('_l.end', {'_l': 'loc'}, '(l_end {_l})', 'Z'),
+    ('_a == _b', {'_a': 'loc', '_b': 'loc'}, '(py_loc_eq {_a} {_b})', 'bool'),
+    ('_a > _b', {'_a': 'loc', '_b': 'loc'}, '(py_loc_gt {_a} {_b})', 'bool'),
+    ('_a == _b', {'_a': 'str', '_b': 'str'}, '(eq_seq {_a} {_b})', 'bool'),
+    ('_a > _b', {'_a': 'str', '_b': 'str'}, '(str_gtb {_a} {_b})', 'bool'),
+]
+VREC = dict(out='Py_VariantRecord', file='moPepGen/seqvar/VariantRecord.py', cls='VariantRecord', imports=['Model.VarRecord'],
+            types=VR_TYPES, args=[('a', 'vrec'), ('b', 'vrec')], params={'other': ('b', 'vrec')},
+            ret_ty='bool', res_ty='bool', ok='{}', errors={}, raises=[])
+TARGETS += [
+    dict(FLOC, func='__eq__', coq_name='py_loc_eq', stub='negb (loc_eqb a b)'),
+    dict(FLOC, func='__gt__', coq_name='py_loc_gt', stub='negb (loc_gtb a b)'),
+    dict(VREC, func='__eq__', coq_name='py_vr_eq', stub='negb (vr_eq a b)', patterns=VRPATS),
+    dict(VREC, func='__gt__', coq_name='py_vr_gt', stub='negb (vr_gt a b)', patterns=VRPATS),
+    dict(VREC, func='__ge__', coq_name='py_vr_ge', stub='negb (vr_ge a b)',
+         patterns=[('self == other', {}, '(py_vr_eq a b)', 'bool'), ('self > other', {}, '(py_vr_gt a b)', 'bool')]),
+    dict(VREC, func='__lt__', coq_name='py_vr_lt', stub='negb (vr_lt a b)',
+         patterns=[('self >= other', {}, '(py_vr_ge a b)', 'bool')]),
+    dict(VREC, func='__le__', coq_name='py_vr_le', stub='negb (vr_le a b)',
+         patterns=[('self > other', {}, '(py_vr_gt a b)', 'bool')]),
+    dict(VREC, func='__hash__', coq_name='py_vr_hash_key', args=[('a', 'vrec')], params={},
+         ret_ty='hkey', res_ty='list hval', stub='[]',
+         tuple_wrap={'elem': {'Z': '(HZ {})', 'str': '(HS {})', 'optstr': '(HO {})'}, 'ty': 'hkey'},
+         patterns=VRPATS + [('hash(_t)', {'_t': 'hkey'}, '{_t}', 'hkey')] +
+                  [("self.attrs.get('%s')" % k, {}, '(attr a %d%%nat)' % i, 'optstr') for i, k in enumerate(HASH_ATTRS)]),
+]
